@@ -42,20 +42,43 @@ def _load(prop):
 
 
 # ------------------------------------------------------------------- workers
+class TaskTimeout(BaseException):
+    pass
+
+
+def _watchdog(limit):
+    """raise TaskTimeout in the worker's main thread after `limit` seconds: a
+    runaway pure-python computation (normal forms, sympy) becomes an engine
+    gap (exit 3) instead of a hang.  Solver calls have their own hard kill."""
+    import ctypes
+    import threading
+    tid = threading.main_thread().ident
+
+    def fire():
+        ctypes.pythonapi.PyThreadState_SetAsyncExc(ctypes.c_ulong(tid), ctypes.py_object(TaskTimeout))
+    t = threading.Timer(limit, fire)
+    t.daemon = True
+    t.start()
+    return t
+
+
 def _work(task):
     cid, config, mode, seed = task
     from vp import registry, core
     cd = registry.CONTRACTS[cid]
     t0 = time.time()
+    wd = _watchdog(float(os.environ.get('VERIF_TASK_LIMIT', '1500')))
     try:
         if mode == 'sym':
             r = core.run_symbolic(cd.fn, config, max_paths=cd.max_paths, budget_s=cd.budget_s)
         else:
             st, info = core.run_native(cd.fn, config, seed=seed, tol=cd.tol)
             r = dict(config=core._cfg(config), native=dict(status=st, info=info))
-    except Exception as e:  # engine crash: never a verdict
+    except (Exception, TaskTimeout) as e:  # engine crash / task limit: never a verdict
         import traceback
         r = dict(config=config, engine_crash=''.join(traceback.format_exception(type(e), e, e.__traceback__)[-8:]))
+    finally:
+        wd.cancel()
     r['contract'] = cid
     r['mode'] = mode
     r['task_wall_s'] = time.time() - t0
